@@ -130,6 +130,41 @@ func c13Check(c *fw.Ctx, layout geom.Layout, pts []ipt, via int, class string) {
 		cuts = append(cuts, len(pts)*stride)
 	}
 	c.SetInput(c13Desc(layout, flat, vias[via]))
+	if c.R.Chance(1, 16) {
+		// hulls that are refused or panic part-way (NaN positions, an array that ends
+		// in a partial coordinate) right before the judged one: whatever they do, the
+		// next call starts from nothing
+		func() {
+			defer func() { _ = recover() }()
+			bad := append([]float64{}, flat...)
+			if len(bad) >= stride {
+				bad[(len(pts)/2)*stride%len(bad)] = math.NaN()
+			}
+			_ = xy.ConvexHullFlat(layout, bad)
+		}()
+		func() {
+			defer func() { _ = recover() }()
+			if len(flat) > 1 {
+				_ = xy.ConvexHullFlat(layout, flat[:len(flat)-1])
+			}
+		}()
+		c.Count("refused_hulls_first")
+	}
+	if stride > 2 && c.R.Chance(1, 4) {
+		// the same positions with other extra ordinates, right before: the judged
+		// hull carries the extras of ITS input
+		func() {
+			defer func() { _ = recover() }()
+			twin := append([]float64{}, flat...)
+			for i := 0; i < len(twin); i += stride {
+				for k := 2; k < stride; k++ {
+					twin[i+k] += 500000
+				}
+			}
+			_ = xy.ConvexHullFlat(layout, twin)
+		}()
+		c.Count("hull_of_the_same_positions_with_other_extras_first")
+	}
 	before := append([]float64{}, flat...)
 	var res geom.T
 	if c.Guard("panic", func() {
